@@ -30,13 +30,14 @@ TStep ==
   /\ l <= Len(Traces[tid].steps)
   /\ LET e == Traces[tid].steps[l] IN
        /\ \/ e.cmd = "enter" /\ SwapEnter(e.t, e.m, e.o, e.withOvl)
-          \/ e.cmd = "exit" /\ SwapExit(e.t, e.v = "exc")
+          \/ e.cmd = "exit" /\ SwapExit(e.t, e.v)
           \/ e.cmd = "set" /\ Set(e.t, e.k, e.v)
           \/ e.cmd = "del" /\ Del(e.t, e.k)
           \/ e.cmd = "ovlset" /\ OvlSet(e.t, e.k, e.v)
           \/ e.cmd = "detype" /\ Detype(e.t)
           \/ e.cmd = "inherit" /\ Inherit(e.v, e.t)
           \/ e.cmd = "drop" /\ Drop(e.t)
+          \/ e.cmd = "respawn" /\ Respawn(e.t)
        /\ ViewsMatch(e)
        /\ res'.err = e.obs.err
        /\ (e.cmd = "detype" => res'.out = e.obs.out)
